@@ -146,6 +146,8 @@ def named(R, b, v, bs, sk, nf, sp, fields, container, variant_ident):
     want = [f["key"] for f in live]
     if got != want:
         R.bad("C07.KEYS", body, "fields are read from keys %s, the effective keys are %s%s" % (got, want, where), b.span)
+        if variant_ident is not None:
+            R.bad("C10.VARIANTFIELDS", body, "after the tag selected variant %s its fields are read from keys %s, that variant's own rules give %s" % (variant_ident, got, want), b.span)
     else:
         R.sample("C07", {"type": sp["name"] + where, "keys": got})
     for a, f in zip(nf.arms, live):
